@@ -1350,6 +1350,19 @@ def grd6(P, R, L, rule="GRD-6"):
     for c in comparisons(b):
         e_len += c.edges_where("ge", cur, ln)
     R.floor(rule, "end-of-log exits of read_record", len(eof_blocks), 2)
+    # every UnexpectedEof from the physical read ends as end-of-log (a torn tail must never fail the open), whatever
+    # state the reassembly is in
+    only_kind_edges = [(sb, tg) for (sb, tg) in e_eof_edges]
+    eofb = [bb for (bb, _) in eof_blocks]
+    tail_ok = bool(only_kind_edges)
+    for (sb, tg) in only_kind_edges:
+        # only the edge that can carry UnexpectedEof: the one from which an eof block is reachable at all
+        if not any(x in b.reachable(tg) for x in eofb):
+            continue
+        if not all(b.must_pass(r, through_nodes=eofb, start=tg) for r in b.return_blocks()):
+            tail_ok = False
+    R.check(rule, READ_RECORD + "|unexpected-eof-is-always-end-of-log", tail_ok, where(b),
+            "from the UnexpectedEof edge of the physical read every path returns end-of-log (never an error, whatever was being reassembled)", "")
     for (bb, line) in eof_blocks:
         ok = (bool(e_eof_edges) and b.must_pass(bb, through_edges=e_eof_edges)) or (bool(e_len) and b.must_pass(bb, through_edges=e_len))
         R.check(rule, READ_RECORD + "|eof-only-when-file-ends", ok, "%s:%s" % (b.file, line),
@@ -2212,7 +2225,8 @@ def grd12_reuse_only_complete_logs(P, R, L, rule="GRD-12"):
         qnames = {q.name for q in queries}
         derived = lambda os_: any(o.kind == "call" and o.name in qnames for o in os_)
         from ..dataflow import TRANSPARENT
-        T2 = TRANSPARENT | {"std::result::Result::unwrap_or", "std::result::Result::unwrap_or_default", "std::result::Result::unwrap_or_else"}
+        T2 = TRANSPARENT | {"std::result::Result::unwrap_or", "std::result::Result::unwrap_or_default", "std::result::Result::unwrap_or_else",
+                            "std::result::Result::map_err", "std::result::Result::map", "std::result::Result::ok", "std::option::Option::unwrap_or"}
         for bb in range(body.n):
             t = body.term(bb)
             if t["k"] == "switch" and t["discr"]["k"] in ("copy", "move"):
@@ -2242,3 +2256,162 @@ def grd12_reuse_only_complete_logs(P, R, L, rule="GRD-12"):
             R.check(rule, fn + "|reuse-only-when-fully-consumed", ok, s.where(),
                     "%s is re-opened for appending only on an edge that depends on the log reader having consumed the whole file" % what,
                     "reader-state queries %s; guard edges %d" % ([c.name.rsplit("::", 1)[1] for c in q], len(e)))
+
+
+# ------------------------------------------------------------------------------------------- MAN-1 manifest reader reports damage
+def man1_manifest_reader_strict(P, R, L, rule="MAN-1"):
+    """Skipping a damaged fragment is documented behaviour for the write-ahead log only. The manifest must be read in a
+    mode in which a fragment that fails its checksum / cannot be parsed is an error: (a) LogReader::read_record has a
+    per-reader bool field on whose true edge the dropped-fragment path returns Err; (b) the reader VersionSet::recover
+    uses went through a LogReader method that sets that field."""
+    rr = P.body(READ_RECORD)
+    rec = P.body("versioning::version_set::VersionSet::recover")
+    if rr is None or rec is None:
+        return R.missing_anchor(rule, "LogReader::read_record / VersionSet::recover")
+    R.analysed(rr, rec)
+    phys = [c for c in rr.calls() if c.name == READ_PHYS and not rr.is_cleanup(c.bb)]
+    err_targets = []
+    for c in phys:
+        for t in result_tests(rr, c.dest["l"]):
+            err_targets += t.err
+    # mode fields: bool fields of LogReader read in read_record by a switch after the Err edge
+    mode_fields = {}
+    for bb in range(rr.n):
+        t = rr.term(bb)
+        if t["k"] != "switch" or t["discr"]["k"] not in ("copy", "move"):
+            continue
+        if not any(bb in rr.reachable(e) or bb == e for e in err_targets):
+            continue
+        for o in origins(rr, t["discr"]):
+            if o.kind == "param" and o.name == 1 and o.path and rr.local_ty(t["discr"]["pl"]["l"]) == "bool":
+                from ..rules import switch_target
+                f = switch_target(t, 0)
+                true_t = [tg for _, tg in rr.edges(bb) if tg != f]
+                # on the true edge every path to return writes Err
+                errs = [x for x in range(rr.n) if not rr.is_cleanup(x) for st in rr.blocks[x]["stmts"]
+                        if st["k"] == "assign" and st["pl"]["l"] == 0 and st["rv"]["k"] == "aggregate" and st["rv"].get("variant") == "Err"]
+                if true_t and all(rr.must_pass(r, through_nodes=errs, start=tt) for tt in true_t for r in rr.return_blocks()) \
+                        and not any(c.bb in rr.reachable(tt) for tt in true_t for c in phys):
+                    mode_fields[o.path[-1]] = bb
+    ok_a = bool(mode_fields)
+    R.check(rule, READ_RECORD + "|damage-can-be-reported", ok_a, where(rr),
+            "read_record has a per-reader mode in which a fragment that cannot be delivered is returned as an error instead of being skipped",
+            "mode fields %s" % sorted(mode_fields))
+    # (b) recover's reader has the mode switched on
+    setters = set()
+    for p, b in P.bodies.items():
+        if p.startswith("logs::LogReader::"):
+            for fld in mode_fields:
+                if field_stores(b, fld, const=1) or any(
+                        st["k"] == "assign" and st["rv"]["k"] == "aggregate" and (st["rv"].get("adt") or "").endswith("logs::LogReader")
+                        and fld in st["rv"]["fields"] and st["rv"]["ops"][st["rv"]["fields"].index(fld)].get("val") == "1"
+                        for bb_ in b.blocks for st in bb_["stmts"]):
+                    setters.add(p)
+    reads = [c for c in rec.calls() if c.name == READ_RECORD and not rec.is_cleanup(c.bb)]
+    ok_b = bool(reads) and bool(setters)
+    if ok_b:
+        from ..dataflow import TRANSPARENT
+        T2 = TRANSPARENT | {"std::result::Result::map"}
+        for c in reads:
+            os_ = origins(rec, c.args[0], transparent=T2)
+            chain_ok = any(o.kind == "call" and o.name in {strip_generics(s_) for s_ in setters} for o in os_)
+            if not chain_ok:
+                # Result::map(LogReader::setter): the setter is passed as a function item
+                chain_ok = any(a.get("fn") and strip_generics(a["fn"]) in {strip_generics(s_) for s_ in setters}
+                               for x in rec.calls() for a in x.args if a["k"] == "const")
+            if not chain_ok:
+                ok_b = False
+    R.check(rule, rec.path + "|manifest-reader-reports-damage", ok_b, where(rec),
+            "the reader used to recover the manifest has the report-damage mode switched on (a damaged manifest record fails the open)",
+            "mode setters %s" % sorted(setters))
+
+
+# ------------------------------------------------------------------------------------------- ORD-8c recovered sequence / PAIR-10 builder slot
+def expr_calls(body, op, depth=6, seen=None):
+    """names of calls (and constants) feeding an arithmetic expression tree"""
+    out = set()
+    seen = seen if seen is not None else set()
+    for o in origins(body, op):
+        if o.kind == "call":
+            out.add(o.name)
+        elif o.kind == "const":
+            out.add("const:%s" % o.name)
+        elif o.kind in ("binop", "unop") and o.extra and depth > 0:
+            key = (o.extra[0], id(o.extra[1]))
+            if key in seen:
+                continue
+            seen.add(key)
+            for x in o.extra[1]["rv"]["ops"]:
+                out |= expr_calls(body, x, depth - 1, seen)
+    return out
+
+
+def ord8c_recovered_sequence(P, R, L, rule="ORD-8c"):
+    """Recovery publishes the sequence of the LAST operation of the last replayed batch: the value returned by
+    recover_wal_records derives from get_starting_seq_number() + len() - 1 of the replayed batch, and
+    recover_unrecorded_logs publishes the maximum through set_prev_sequence_number."""
+    b = P.body("db::DB::recover_wal_records")
+    if b is None:
+        return R.missing_anchor(rule, "db::DB::recover_wal_records")
+    R.analysed(b)
+    ok = False
+    det = "no Ok((.., last_sequence)) tuple found"
+    for bb in _ok_blocks(b):
+        for st in b.blocks[bb]["stmts"]:
+            if st["k"] == "assign" and st["pl"]["l"] == 0 and st["rv"]["k"] == "aggregate" and st["rv"].get("variant") == "Ok":
+                tup = st["rv"]["ops"][0]
+                if tup["k"] not in ("copy", "move"):
+                    continue
+                for d in b.defs().get(tup["pl"]["l"], []):
+                    if d[0] == "stmt" and d[3]["rv"]["k"] == "aggregate" and d[3]["rv"]["ak"] == "tuple" and len(d[3]["rv"]["ops"]) == 2:
+                        names = expr_calls(b, d[3]["rv"]["ops"][1])
+                        need = {"batch::Batch::get_starting_seq_number", "batch::Batch::len", "const:1"}
+                        ok = need <= names
+                        det = "returned sequence is computed from %s" % sorted(n for n in names if not n.startswith("const:") or n == "const:1")
+    R.check(rule, b.path + "|last-sequence-of-replayed-batch", ok, where(b),
+            "the sequence restored from a WAL is start + len - 1 of the replayed batch (the whole batch becomes visible, not a prefix)", det)
+    u = P.body("db::DB::recover_unrecorded_logs")
+    if u is not None:
+        R.analysed(u)
+        sp = normal_sites(u, SET_PREV_SEQ)
+        rw = normal_sites(u, "db::DB::recover_wal_records")
+        ok = bool(sp) and bool(rw) and all(any(o.kind == "call" and o.name == "db::DB::recover_wal_records" for o in origins(u, s.args[1])) for s in sp)
+        R.check(rule, u.path + "|publishes-recovered-sequence", ok, where(u),
+                "the value published after replay comes from recover_wal_records' result", "")
+
+
+def pair10_builder_slot(P, R, L, rule="PAIR-10"):
+    """finish_compaction_output_file: once TableBuilder::finalize / abandon ran, the builder is taken out of the state on
+    every path to return (cleanup_compaction would otherwise abandon() an already closed builder and panic the worker)."""
+    fn = "compaction::state::CompactionState::finish_compaction_output_file"
+    b = P.body(fn)
+    if b is None:
+        return R.missing_anchor(rule, fn)
+    R.analysed(b)
+    closers = [c for c in b.calls() if not b.is_cleanup(c.bb) and c.name in ("tables::table_builder::TableBuilder::finalize", "tables::table_builder::TableBuilder::abandon")]
+    takes = [c for c in b.calls() if not b.is_cleanup(c.bb) and c.name == "std::option::Option::take"
+             and any("table_builder" in o.path for o in origins(b, c.args[0]))]
+    clears = [c.bb for c in takes] + [s[0] for s in field_stores(b, "table_builder")]
+    ok = bool(closers) and bool(clears)
+    det = []
+    for c in closers:
+        if c.target is None:
+            continue
+        for r in b.return_blocks():
+            if not b.must_pass(r, through_nodes=clears, start=c.target):
+                ok = False
+                det.append("after %s (line %s) a return is reachable with the closed builder still in place" % (c.name.rsplit("::", 1)[1], c.line))
+                break
+    R.check(rule, fn + "|closed-builder-is-removed", ok, where(b),
+            "after finalize()/abandon() the table builder is taken out of the compaction state on every path to return", "; ".join(det))
+    cc = P.body(CLEANUP)
+    if cc is not None:
+        R.analysed(cc)
+        ab = normal_sites(cc, "tables::table_builder::TableBuilder::abandon")
+        hb = [c for c in cc.calls() if c.name == "compaction::state::CompactionState::has_table_builder" and not cc.is_cleanup(c.bb)]
+        e = []
+        for h in hb:
+            for t in _bt(cc, h.dest["l"]):
+                e += t.ok_edges()
+        ok = all(cc.must_pass(a.bb, through_edges=e) for a in ab) and bool(e) if ab else True
+        R.check(rule, CLEANUP + "|abandon-only-open-builder", ok, where(cc), "cleanup_compaction abandons a builder only if one is present", "")
